@@ -1,5 +1,6 @@
 """C09: XCDR serialization round-trips every value of every supported type (XCDR1/XCDR2, LE/BE) and the
 encapsulation padding is recorded."""
+import re
 from vlib.core import Case
 from vlib import xcdr_common as X
 
@@ -10,7 +11,15 @@ RULE = ("one `rt <ver> <endianness> <type> <value>` line per case: random dynami
         "primitives / strings / enums / structures) and random values biased to boundaries (0, max, sign bit, empty and "
         "long collections, absent optionals, 8-byte members after 1-byte members); the hand-written corpus (exemplar of "
         "every finding) runs first; a case is non-trivial when the value contains at least one collection, string or "
-        "nested structure; distinct by canonical op line")
+        "nested structure; distinct by canonical op line. "
+        "FOLLOW-UP 2: one case in nine draws its types with wide strings (values with surrogate pairs, the empty string, "
+        "long strings) and enumerations declared appendable / mutable - these are inside the model and the theorem; one "
+        "case in nine additionally draws UNIONS (final / appendable / mutable; discriminator kinds u8..i32; several labels "
+        "per branch; the default branch at any position or missing; unions nested in unions, in collections, optional). "
+        "FINAL unions are inside the Lean model and the theorem (differential + oracle like every other case). "
+        "APPENDABLE and MUTABLE unions are NOT in the Lean model: a case whose type text contains `UA` or `UM` (model "
+        "answer `unmodelled`) is the ORACLE-ONLY PART - it runs on the implementation only and is judged by the "
+        "round-trip oracle (decode(serialize v) = v on the real code, with and without the recorded padding)")
 ASSUMPTIONS = [
     "the model is the tree with fixes/D12 D13 D45 D46 D47 D61 D66 .patch applied (vlib/xcdr_common.tree_cfg detects which "
     "repairs the checkout contains and selects the matching model configuration `xcdr:<bits>`)",
@@ -52,7 +61,7 @@ def oracle(case, out):
     viol = []
 
     def bad(what, cause_ok=True):
-        cause = X.attribute(t, v, ver) if cause_ok else None
+        cause = (X.attribute(t, v, ver) or X.attribute_ext(t, v, ver)) if cause_ok else None
         if cause is not None and in_theorem(ver, ty, val):
             cause = None        # inside the proved subset: never suppressed
         viol.append({"what": what, "op": line[:800], "got": o[:400], "cause": cause})
@@ -87,17 +96,77 @@ def oracle(case, out):
     return viol
 
 
+def oracle_union(case, out):
+    """oracle-only part (types with unions): round trip on the real code"""
+    line = case.lines[0]
+    tk = line.split()
+    o = out[0] if out else "CRASH"
+    ver, ty, val = int(tk[1]), tk[3], tk[4]
+    try:
+        t, v = X.parse_ty(ty), X.parse_val(val)
+    except ValueError:
+        return [{"what": "unparsable case", "op": line}]
+    cause = X.attribute_ext(t, v, ver) or X.attribute(t, v, ver)
+    status, hx, ds = X.parse_rt(o)
+    want = "ok " + val
+    if status != "ok":
+        return [{"what": f"serializing a value with a union: {status}", "op": line[:800], "got": o[:400], "cause": cause}]
+    if len(ds) != 3:
+        return [{"what": "malformed harness answer", "op": line[:800], "got": o[:400], "cause": None}]
+    if ds[0] != want:
+        return [{"what": f"round trip changed the value (union): decoded {ds[0][:200]}", "op": line[:800], "got": o[:400],
+                 "cause": cause}]
+    if ds[1] != want:
+        return [{"what": f"the payload without the recorded padding decodes differently: {ds[1][:200]}", "op": line[:800],
+                 "got": o[:400], "cause": cause}]
+    return []
+
+
+EXT_CORPUS = [
+    # wide strings (inside the model): a surrogate pair, the empty string, BMP only, in a sequence, in a mutable struct
+    "rt 1 le SF{0:w,1:u8} {[97,55357,56832,98],7}",
+    "rt 2 be SF{0:w,1:u8} {[97,55357,56832,98],7}",
+    "rt 1 be SF{0:w,1:u8} {[],7}",
+    "rt 2 le SF{0:Q(w),1:A2(w)} {[[97],[],[8364]],[[55296,56320],[65535]]}",
+    "rt 1 le SM{3:w,1o:w,2:u8} {[55357,56832],_,7}",
+    "rt 2 le SM{3:w,1o:w,2:u8} {[55357,56832],[],7}",
+    # enumerations with a declared extensibility
+    "rt 2 le SM{0:Ei32a[0,1],1:u8} {1,7}",
+    "rt 2 be SM{0:Ei16m[0,1],1:Q(Ei8a[2])} {1,[2,2]}",
+    # unions (oracle-only part): default branch first / last / missing, several labels, every extensibility
+    "rt 1 le SF{0:UFi32{2d:i16,1[5]:i64},1:u32} {<5,1:1108152157446>,3735928559}",
+    "rt 2 be SF{0:UFi32{2d:i16,1[5]:i64},1:u32} {<5,1:1108152157446>,3735928559}",
+    "rt 2 le SF{0:UFi32{2d:i16,1[5]:i64},1:u32} {<9,2:65534>,3735928559}",
+    "rt 1 le SF{0:UFi32{1[5,7]:i64,2d:i16},1:u32} {<7,1:3>,9}",
+    "rt 2 le SF{0:UAu8{2d:s,1[5]:u8},1:u32} {<5,1:7>,9}",
+    "rt 2 le SF{0:UFi8{1[-1]:u8}} {<255,1:7>}",
+    "rt 2 le SF{0:Q(UFu16{3d:u8,1[2]:w})} {[<2,1:[97]>,<0,3:1>]}",
+    "rt 1 le SF{0:UAi32{1[5]:u8,2d:u16},1:u32} {<5,1:7>,9}",                # U1
+    "rt 2 le SF{0:Q(UAi32{1[5]:u8,2d:u16})} {[<5,1:7>,<6,2:8>]}",           # U2
+    "rt 2 le SF{0:UMi32{1[5]:u8,2d:u16},1:u32} {<5,1:7>,9}",                # U3
+    "rt 2 le SF{0:UFu8{1[5]:i64}} {<6>}",                                   # U4
+]
+
+
 def gen_cases(ctx):
     r = ctx.rng
     n = 1600 if ctx.tier == "quick" else 30000
-    cases = [Case([l]) for l in X.CORPUS_RT]
+    cases = [Case([l]) for l in X.CORPUS_RT] + [Case([l]) for l in EXT_CORPUS]
     for k in range(n):
         ver = r.choice([1, 2])
         if k % 12 == 0:      # constructs outside the proved subset (open findings)
             kn = X.Knobs(ver=ver, big_id=25, c8_high=10, mut_absent_v2=40, empty_struct=8, sentinel_id=50, lc5_seq=60)
         elif k % 97 == 5:    # long strings / sequences (a few of them above 2^16 bytes in the thorough tier)
             big = ctx.tier == "thorough" and k % 970 == 5
-            kn = X.Knobs(ver=ver, long=10, maxlong=70000 if big else 3000, nesting=2)
+            kn = X.Knobs(ver=ver, long=10, maxlong=70000 if big else 3000, nesting=2, wstr=10)
+        elif k % 9 == 1:     # follow-up 2: wide strings, enumerations with a declared extensibility (inside the model)
+            kn = X.Knobs(ver=ver, wstr=20, enum_ext=50)
+        elif k % 9 == 2:     # follow-up 2: unions (oracle-only part)
+            kn = X.Knobs(ver=ver, wstr=8, union=25, enum_ext=30, nesting=3, union_ext="FFFFFFAAM", union_nobranch=4,
+                         long=1, maxlong=150, maxseq=60)
+        elif k % 9 == 3:     # follow-up 2: final unions only (inside the model and the theorem)
+            kn = X.Knobs(ver=ver, wstr=8, union=30, enum_ext=30, nesting=3, union_ext="F", union_nobranch=4, long=1,
+                         maxlong=150, maxseq=60)
         else:
             kn = X.Knobs(ver=ver)
         t = X.gen_type(r, kn)
@@ -113,6 +182,29 @@ def run(ctx):
     cases = gen_cases(ctx)
     eng = X.model_engine()
     ctx.count("model-engine " + eng)
+    # the oracle-only part: unions are not modelled
+    def is_u(c):
+        tk = c.lines[0].split()
+        return tk[0] == "rt" and ("UA" in tk[3] or "UM" in tk[3])
+    ucases = [c for c in cases if is_u(c)]
+    cases = [c for c in cases if not is_u(c)]
+    ctx.count("oracle-only part (type has an appendable / mutable union)", len(ucases))
+    ctx.count("type has a final union (inside the model)", sum(1 for c in cases if c.lines[0].startswith("rt ") and "UF" in c.lines[0].split()[3]))
+    for c in ucases:
+        tk = c.lines[0].split()
+        t, v = X.parse_ty(tk[3]), X.parse_val(tk[4])
+        for cs in X.union_constructs(t, v, int(tk[1])):
+            ctx.count("oracle-only, outside the round-trip subset: " + cs)
+        for (tt, vv, _) in X.pairs(t, v):
+            if tt[0] == "union" and vv[2] is not None:
+                dflt = [i for i, b in enumerate(tt[3]) if b[2]]
+                sel = next(i for i, b in enumerate(tt[3]) if b[0] == vv[2][0])
+                if dflt and dflt[0] < sel:
+                    ctx.count("union value selects a case declared after the default branch")
+                if dflt and sel == dflt[0]:
+                    ctx.count("union value selects the default branch")
+    for i in range(0, len(ucases), 5000):
+        X.oracle_only(ctx, ENGINE, ucases[i:i + 5000], nontrivial=lambda c, o: True, oracle=oracle_union)
     for c in cases:
         tk = c.lines[0].split()
         if tk[0] != "rt":
@@ -121,9 +213,13 @@ def run(ctx):
         ctx.count(f"xcdr{tk[1]}-{tk[2]}")
         ty = tk[3]
         for key, pat in (("mutable", "SM{"), ("appendable", "SA{"), ("final", "SF{"), ("sequence", "Q"), ("array", "A"),
-                         ("string", "s"), ("enum", "E"), ("optional", "o:")):
+                         ("string", "s"), ("enum", "E"), ("optional", "o:"), ("wide string", "w")):
             if pat in ty:
                 ctx.count("type has " + key)
+        if re.search(r"E(i8|i16|i32)[am]\[", ty):
+            ctx.count("type has enum declared appendable / mutable")
+        if re.search(r"5[5-6]\d\d\d,5[6-7]\d\d\d", tk[4]) and "w" in ty:
+            ctx.count("value has a wide string with a surrogate pair (likely)")
         if "_" in tk[4]:
             ctx.count("value has absent member")
         try:
@@ -145,7 +241,8 @@ TECHNIQUE = ("Lean 4 round-trip theorems by mutual structural induction over the
              "`de (ser v ++ rest) = ok v, rest, position`) + differential correspondence of the transcription model with "
              "the real serializer / deserializer on random dynamic types")
 LEVEL_TEXT = ("Kernel-checked Lean theorems over ALL types and values accepted by the decidable predicate wfVal (primitives, strings, "
-              "enumerations, sequences, arrays, final / appendable / mutable structures nested arbitrarily, optional and absent "
+              "wide strings incl. characters outside the BMP, enumerations of any declared extensibility, FINAL unions (default "
+              "branch at any position, several labels per branch, nested, in collections), sequences, arrays, final / appendable / mutable structures nested arbitrarily, optional and absent "
               "members, ids in any order): C09_roundtrip_partial / C09_roundtrip_nested_partial (decode(serialize v ++ rest) = v with "
               "the exact remainder and final alignment position, for XCDR1 and XCDR2, both byte orders, every repair configuration; "
               "by mutual structural induction, the mutable cases through lemmas about the seek_to_pid walks) and "
@@ -155,7 +252,10 @@ LEVEL_TEXT = ("Kernel-checked Lean theorems over ALL types and values accepted b
               "on the real code; the as-is deserializer / serializer break the round trip (D45, D46, D47, D61: witnesses, "
               "repaired by fixes/*.patch). The model is tied to serializer.rs / deserializer.rs by a differential run: the real "
               "bytes and the real decoded values of thousands of random dynamic types are compared with the model's, line by "
-              "line; an oracle violation is attributed to a finding only if the Lean predicate wfVal itself rejects the case.")
+              "line; an oracle violation is attributed to a finding only if the Lean predicate wfVal itself rejects the case. "
+              "ORACLE-ONLY PART: appendable and mutable unions are not in the Lean model (three of their four uses do not work in "
+              "the code: findings D77-D79); cases with them run on the implementation only and are judged by the round-trip "
+              "oracle; nothing is proved about them.")
 LEVEL_NOTE = ("Trusted: Lean kernel (axioms propext, Classical.choice, Quot.sound at most); the hand-written transcription "
               "Model/Xcdr.lean (+ the decidable well-formedness predicate Model/XcdrWF.lean, which states the real limits: value "
               "ranges, u16/u32 size fields, CHAR8 < 128, distinct member ids); the harness that builds DynamicType/DynamicData "
